@@ -5,6 +5,7 @@ package main
 // internal tuple of the implementation.
 
 import (
+	"reflect"
 	"bytes"
 	"encoding/json"
 	"errors"
@@ -231,6 +232,12 @@ func c19ops(thorough bool) []c19op {
 			return &scriptReader{chunks: [][]byte{[]byte("ab")}, err: errors.New("rd-fail")}
 		}},
 		{"negative count", func() *scriptReader { return &scriptReader{neg: true} }},
+		{"2 bytes, then an error that wraps io.EOF", func() *scriptReader {
+			return &scriptReader{chunks: [][]byte{[]byte("ab")}, err: fmt.Errorf("connection lost: %w", io.EOF)}
+		}},
+		{"2 bytes, then io.EOF joined with another error", func() *scriptReader {
+			return &scriptReader{chunks: [][]byte{[]byte("cd")}, err: errors.Join(errors.New("rd-fail"), io.EOF)}
+		}},
 		{"100 empty reads, then 16 bytes", func() *scriptReader {
 			return &scriptReader{idle: 100, chunks: [][]byte{[]byte("alpha,beta,gamma")}}
 		}},
@@ -343,6 +350,15 @@ func c19roots() []c19root {
 			b.Next(3)
 			return a, b
 		}},
+		{"full 70-byte buffer, 4 read, then one byte written (the write had to make room: slide or reallocate)", func() (bufAPI, bufAPI) {
+			mk := func() []byte { p := make([]byte, 70, 70); copy(p, rep("k", 70)); return p } // capacity exactly 70
+			a, b := slog.NewPrintCtx(mk()), bytes.NewBuffer(mk())
+			a.Next(4)
+			b.Next(4)
+			a.WriteByte('w')
+			b.WriteByte('w')
+			return a, b
+		}},
 		{"NewPrintCtx(70-byte slice)", func() (bufAPI, bufAPI) {
 			return slog.NewPrintCtx([]byte(rep("k", 70))), bytes.NewBuffer([]byte(rep("k", 70)))
 		}},
@@ -366,7 +382,19 @@ type c19case struct {
 func c19key(impl bufAPI, ref bufAPI) string {
 	pc := impl.(*slog.PrintCtx)
 	content, off, ln, cp, lr := slog.VerifPCState(pc)
-	return fmt.Sprintf("%d|%d|%d|%d|%x|%x", off, ln, cp, lr, content[:ln], ref.Bytes())
+	// the reference's hidden state is part of the key as well: two histories may leave the implementation in one state and
+	// bytes.Buffer in two (what a later UnreadByte / UnreadRune does depends on it)
+	roff, rlast := int64(-1), int64(-1)
+	if rb, ok := ref.(*bytes.Buffer); ok {
+		rv := reflect.ValueOf(rb).Elem()
+		if f := rv.FieldByName("off"); f.IsValid() && f.CanInt() {
+			roff = f.Int()
+		}
+		if f := rv.FieldByName("lastRead"); f.IsValid() && f.CanInt() {
+			rlast = f.Int()
+		}
+	}
+	return fmt.Sprintf("%d|%d|%d|%d|%x|%x|%d|%d", off, ln, cp, lr, content[:ln], ref.Bytes(), roff, rlast)
 }
 
 // c19replay replays a history in lock-step; returns the violation (if any) and
